@@ -21,7 +21,8 @@ META = {
              "fetch_chunk / fetch_file / file_exists / sharded write+close / "
              "overwrite / refused overwrite / HTTP fetch). For each scenario "
              "the I/O calls of the operation are traced once, then EVERY call "
-             "index x errno in {ENOSPC, EACCES, EIO} (HTTP: connection reset "
+             "index x errno in {ENOSPC, EACCES, EIO, and ENOENT for calls that "
+             "name a path} (HTTP: connection reset "
              "at every request, and 403/404/500/503 replies) is injected and "
              "EVERY event boundary is a crash point (plus torn last writes). "
              "evaluations = traced scenarios + faulted executions + crash "
@@ -42,6 +43,17 @@ META = {
 
 ERRS = [("ENOSPC", errno.ENOSPC), ("EACCES", errno.EACCES),
         ("EIO", errno.EIO)]
+# ENOENT is only plausible for calls that name a path which can vanish
+# (a directory removed under the writer, a file removed under the reader);
+# the is_file / exists probes answer False instead of raising it
+ENOENT_KINDS = ("open", "makedirs", "mkdir", "rename", "replace", "unlink",
+                "remove")
+
+
+def errs_for(ckind):
+    if ckind.split(":")[0] in ENOENT_KINDS:
+        return ERRS + [("ENOENT", errno.ENOENT)]
+    return ERRS
 
 
 @st.composite
@@ -357,7 +369,7 @@ def check_scenario(ctx, sc):
         for k, (ckind, cpath) in enumerate(calls):
             if k % stride:
                 continue
-            for ename, eno in ERRS:
+            for ename, eno in errs_for(ckind):
                 w = os.path.join(S.root, "w")
                 if os.path.exists(w):
                     shutil.rmtree(w)
